@@ -60,6 +60,8 @@ pub enum Expect {
     ParallelFinalize,
     Concurrent,
     InitError,
+    /// refused with whatever error (malformed command)
+    Refused,
 }
 
 fn classify(e: &ClientError) -> String {
@@ -86,6 +88,7 @@ fn expect_name(e: &Expect) -> &'static str {
         Expect::ParallelFinalize => "ParallelFinalize",
         Expect::Concurrent => "Concurrent",
         Expect::InitError => "InitError",
+        Expect::Refused => "Refused",
     }
 }
 
@@ -223,6 +226,7 @@ impl<SP: StorageProvider> Sim<SP> {
                 self.tm[t].set |= 1 << x;
                 Expect::Ok
             }
+            _ if node.prog.contains(&Op::BadParentCut) => Expect::Refused,
             _ => {
                 let mut r = Ref::new(&self.dag);
                 let mut f = r.state(node.parents[0]).expect("parent state");
@@ -297,7 +301,8 @@ impl<SP: StorageProvider> Sim<SP> {
                     Err(e) => classify(e),
                 };
                 self.outcome_classes.push(format!("add:{got}"));
-                if self.oracles.outcomes && got != expect_name(&expect) {
+                let matches = if expect == Expect::Refused { got != "Ok" } else { got == expect_name(&expect) };
+                if self.oracles.outcomes && !matches {
                     self.viol("add-outcome", format!("add{t}{:?}: runtime returned {got}, statement model expects {}", nodes.iter().map(|&n| node_name(n)).collect::<Vec<_>>(), expect_name(&expect)));
                 }
             }
